@@ -593,10 +593,27 @@ pub fn exec(a: &[&str]) -> (String, String) {
                             Err(e) => fails.push(format!("liblzma error {e}")),
                         }
                     }
-                    // a write call that left an unconverted tail although more data followed
-                    let mid_tail = (0..parts.len()).any(|k| tails[k] && parts[k + 1..].iter().any(|p| !p.is_empty()));
-                    if !fails.is_empty() && mid_tail {
-                        fails.insert(0, "midstream-tail".into());
+                    // The known class (bcj-writer-midstream-tail): the data arrive in several non-empty write calls
+                    // and the SAME data written in one call are filtered correctly (inverse and reference hold) -
+                    // i.e. the failure is the dependence on the write partition and nothing else.  (Decided on
+                    // the outputs alone: how many calls the writer makes on its inner writer is its own business.)
+                    let _ = &tails;
+                    let several = parts.iter().filter(|p| !p.is_empty()).count() >= 2;
+                    if !fails.is_empty() && several {
+                        let one_call_ok = match impl_encode(arch, start, &[data.clone()], usize::MAX) {
+                            Outcome::Ok((e1, _)) => {
+                                let inv = !aligned || matches!(impl_decode(arch, start, &[e1.clone()], &[]), Outcome::Ok(d) if d == data);
+                                let refeq = match ref_props(arch, start) {
+                                    Some(props) => matches!(reflib::ref_filter_encode(kind(arch), &props, &data), Ok(r) if r == e1),
+                                    None => true,
+                                };
+                                inv && refeq
+                            }
+                            _ => false,
+                        };
+                        if one_call_ok {
+                            fails.insert(0, "midstream-tail".into());
+                        }
                     }
                     format!("OK {}", hex(encoded))
                 }
